@@ -350,3 +350,75 @@ Example C14_ctx_examples :
               (mkRun true FEmpty MEmpty CEmpty KEmpty))
   = Some (mkR [77; 117; 46; 99] RtMutating None None (Some 6))%N.
 Proof. split; vm_compute; reflexivity. Qed.
+
+(* ================================================================= the SIZE of what the hook answers
+
+   C14_SizeModel: message, every warning and the JSONPatch document as byte strings of ANY length and
+   number (admission.Response as decoded from the response file), the log step of handleRunHook
+   (Response.Dump() on the very object that becomes the task's prop) and handleReviewRequest copying
+   from it.  The theorems quantify over all lists of warnings and all byte strings. *)
+From Verif Require Import C14_SizeModel C14_SizeSpec C14_SizeProofs.
+
+(* the log helper leaves the response object as it is *)
+Theorem C14_size_dump_preserves : forall r, snd (dump_step r) = r.
+Proof. exact dump_step_preserves. Qed.
+Print Assumptions C14_size_dump_preserves.
+
+(* when a hook ran, exited zero and wrote a valid response, the answer IS that response, field by
+   field: identity on warnings (element for element, in order), patch bytes and the message of a denial *)
+Theorem C14_size_relay_identity : forall hooks path uid r who,
+  snd (size_review hooks path uid true (SResp r)) = Some who ->
+  fst (size_review hooks path uid true (SResp r)) =
+  mkSReview uid (s_allowed r) (if s_allowed r then 0 else 403)%N
+            (if s_allowed r then SMClass AMNone else match s_msg r with [] => SMClass AMNone | m => SMText m end)
+            (s_warnings r) (s_patch r) (nonempty (s_patch r)).
+Proof. exact size_relay_identity. Qed.
+Print Assumptions C14_size_relay_identity.
+
+Theorem C14_size_answer_function_of_content : forall hooks path uid r who,
+  snd (size_review hooks path uid true (SResp r)) = Some who ->
+  sa_warnings (fst (size_review hooks path uid true (SResp r))) = s_warnings r
+  /\ sa_patch (fst (size_review hooks path uid true (SResp r))) = s_patch r
+  /\ sa_patchtype (fst (size_review hooks path uid true (SResp r))) = nonempty (s_patch r)
+  /\ sa_allowed (fst (size_review hooks path uid true (SResp r))) = s_allowed r
+  /\ (s_allowed r = false -> s_msg r <> [] -> sa_msg (fst (size_review hooks path uid true (SResp r))) = SMText (s_msg r))
+  /\ st_log (size_task true (SResp r)) = Some (dump_text r).
+Proof. exact size_answer_function_of_content. Qed.
+Print Assumptions C14_size_answer_function_of_content.
+
+(* C14_Model is this model with the content forgotten (every byte string seen as empty / non-empty):
+   all theorems above hold of the sized answers too *)
+Theorem C14_size_abstraction : forall hooks path uid ez f,
+  (abs_review (fst (size_review hooks path uid ez f)), snd (size_review hooks path uid ez f))
+  = admit_review hooks path uid (abs_run ez f).
+Proof. exact abs_commutes. Qed.
+Print Assumptions C14_size_abstraction.
+
+Theorem C14_size_relay_full : forall hooks path uid ez f,
+  relay_full (model_regs hooks) path ez f (SRev (fst (size_review hooks path uid ez f))) (snd (size_review hooks path uid ez f)) = true.
+Proof. exact relay_full_holds. Qed.
+Print Assumptions C14_size_relay_full.
+
+(* the whole predicate of C14_SizeSpec: C14_Spec.P + full relay + nothing invented *)
+Theorem C14_size_meets_spec : forall hooks path uid ez f, names_ok hooks ->
+  P_size (model_regs hooks) path uid ez f (SRev (fst (size_review hooks path uid ez f))) (snd (size_review hooks path uid ez f)) = true.
+Proof. exact P_size_holds. Qed.
+Print Assumptions C14_size_meets_spec.
+
+(* non-vacuity: the mutating hook "Mu.c" of ex_hooks (names_ok: C14_hyp_met) answers with 7 warnings
+   (one empty, one of 300 bytes) and a patch of 1100 bytes: it ran, and all of it is relayed; the
+   predicate is not trivially true: an answer whose 6th warning or whose 1022nd patch byte differs is refused *)
+Definition ex_sresp : sresp :=
+  mkSResp true [] [[119; 49]; []; repeat 120 300; [119; 52]; [119; 53]; [119; 54]; [119; 55]] (repeat 118 1100).
+Example C14_size_examples :
+  snd (size_review ex_hooks ex_path 7 true (SResp ex_sresp)) = Some (1, (Mutating, [77; 117; 46; 99]))
+  /\ sa_warnings (fst (size_review ex_hooks ex_path 7 true (SResp ex_sresp))) = s_warnings ex_sresp
+  /\ length (sa_patch (fst (size_review ex_hooks ex_path 7 true (SResp ex_sresp)))) = 1100%nat
+  /\ P_size (model_regs ex_hooks) ex_path 7 true (SResp ex_sresp)
+            (SRev (mkSReview 7 true 0 (SMClass AMNone)
+                             [[119; 49]; []; repeat 120 300; [119; 52]; [119; 53]; [46; 46; 46]; [119; 55]] (repeat 118 1100) true))
+            (Some (1, (Mutating, [77; 117; 46; 99]))) = false
+  /\ P_size (model_regs ex_hooks) ex_path 7 true (SResp ex_sresp)
+            (SRev (mkSReview 7 true 0 (SMClass AMNone) (s_warnings ex_sresp) (repeat 118 1021 ++ [46; 46; 46] ++ repeat 118 76) true))
+            (Some (1, (Mutating, [77; 117; 46; 99]))) = false.
+Proof. repeat split; vm_compute; reflexivity. Qed.
